@@ -182,6 +182,7 @@ def build(P):
     P.verify(f"{PF}:PassFailResult.evaluate", name="PassFailResult.evaluate",
              contract=Contract(f"{PF}:PassFailResult.evaluate", cut=False,
                                params={"self": make_pf, "object_results": RT, "ground_truth_objects": TSList(DO)},
+                               modifies=[("attr", "self", a) for a in ("tp_object_results", "fp_object_results", "tn_objects", "fn_objects")],
                                ensures=E("tp_fp_are_the_positive_objects_of_these_results",
                                          f"id(self.tp_object_results) == uf_int('positive_tp', object_results, {PFARGS}) and id(self.fp_object_results) == uf_int('positive_fp', object_results, {PFARGS})",
                                          "tn_fn_are_the_negative_objects_of_these_ground_truths_and_results",
@@ -231,7 +232,8 @@ def build(P):
                  f"{FR}:PerceptionFrameResult.evaluate_frame", cut=False,
                  params={"self": make_frame_result, "previous_result": NONE},
                  requires=per_label(FPD),
-                 modifies=[("field", "FrameGroundTruth", "objects")],
+                 modifies=[("field", "FrameGroundTruth", "objects"), ("attr", "self", "object_results"),
+                           ("attr", "self.pass_fail_result", "seen_results"), ("attr", "self.pass_fail_result", "seen_ground_truths")],
                  ensures=E(
                      "results_are_exactly_those_passing_the_critical_filter_in_the_frames_transforms",
                      f"len(self.object_results) == uf_int('kept_results_len', old(self.object_results), {ACT}) and "
